@@ -176,13 +176,22 @@ pub fn c10(ctx: &Ctx) -> i32 {
 
 pub fn c11(ctx: &Ctx) -> i32 {
     let spec = EnvSpec { check: "c11", flags: E_REC, env_types: ALL_TYPES.to_vec(), sessions: ctx.tier.pick(60_000, 1_000_000), max_steps: 40, toggle_rate: 0.04, offgrid_rate: 0.0 };
-    let out = run_env_spec(ctx, &spec);
+    let mut out = run_env_spec(ctx, &spec);
+    // long sessions: thousands of steps in one environment (series lengths and alignment far beyond a few dozen rows)
+    let lspec = EnvSpec { check: "c11", flags: E_REC, env_types: ALL_TYPES.to_vec(), sessions: ctx.tier.pick(20, 200), max_steps: 2500, toggle_rate: 0.01, offgrid_rate: 0.0 };
+    let lout = run_env_spec(ctx, &lspec);
+    let long_steps = lout.census.steps;
+    out.violations.extend(lout.violations);
+    out.inconclusive.extend(lout.inconclusive);
+    out.distinct.merge(lout.distinct);
+    out.census.merge(&lout.census);
     let c = &out.census;
-    let inconclusive = floors(&[("rows_compared", c.rows_compared, 10_000), ("asymmetric_rows", c.asymmetric_rows, 2000), ("deep_level_rows", c.deep_level_rows, 1000), ("trades", c.trades, 1000), ("multi_asset_sessions", c.multi_asset_sessions, 100)]);
+    let inconclusive = floors(&[("steps_in_long_sessions", long_steps, 10_000), ("rows_compared", c.rows_compared, 10_000), ("asymmetric_rows", c.asymmetric_rows, 2000), ("deep_level_rows", c.deep_level_rows, 1000), ("trades", c.trades, 1000), ("multi_asset_sessions", c.multi_asset_sessions, 100)]);
     let cov = json!({
         "evaluations": c.rows_compared,
         "distinct_nontrivial": out.distinct.len(),
-        "rule": "cases = recorded rows (one per asset per step): after every step the harness reads its own row from the live book's getters and compares ALL recorded series (touch prices, side volumes, touch volumes/counts, per-level volumes and counts for every published level, per-step traded volume recomputed from the trade log) entry by entry and in length; distinct = distinct live-book view records; non-trivial = bid and ask values differ (volume and touch)",
+        "long_sessions": {"sessions": lspec.sessions, "steps": long_steps, "max_steps_per_session": 2500},
+        "rule": "cases = recorded rows (one per asset per step; most sessions have up to 40 steps, a few up to 2500): after every step the harness reads its own row from the live book's getters and compares ALL recorded series (touch prices, side volumes, touch volumes/counts, per-level volumes and counts for every published level, per-step traded volume recomputed from the trade log) entry by entry and in length; distinct = distinct live-book view records; non-trivial = bid and ask values differ (volume and touch)",
         "samples": out.samples,
         "census": c,
         "sessions": c.sessions,
